@@ -310,9 +310,13 @@ impl PupRelation {
                                         Expr::col(sum_square_col),
                                         Expr::greatest(Expr::val(1.), Expr::col(count_col.clone())),
                                     ),
-                                    Expr::divide(
-                                        Expr::col(sum_col),
-                                        Expr::greatest(Expr::val(1.), Expr::col(count_col)),
+                                    // The mean has to be squared: Var(x) = E[x^2] - E[x]^2
+                                    Expr::pow(
+                                        Expr::divide(
+                                            Expr::col(sum_col),
+                                            Expr::greatest(Expr::val(1.), Expr::col(count_col)),
+                                        ),
+                                        Expr::val(2),
                                     ),
                                 ),
                             )),
@@ -345,9 +349,13 @@ impl PupRelation {
                                         Expr::col(sum_square_col),
                                         Expr::greatest(Expr::val(1.), Expr::col(count_col.clone())),
                                     ),
-                                    Expr::divide(
-                                        Expr::col(sum_col),
-                                        Expr::greatest(Expr::val(1.), Expr::col(count_col)),
+                                    // The mean has to be squared: Var(x) = E[x^2] - E[x]^2
+                                    Expr::pow(
+                                        Expr::divide(
+                                            Expr::col(sum_col),
+                                            Expr::greatest(Expr::val(1.), Expr::col(count_col)),
+                                        ),
+                                        Expr::val(2),
                                     ),
                                 ),
                             ),
